@@ -4,7 +4,7 @@
   tools/seed.py import <src-dir> <name>     copy a sub-agent's output to /verif/seeded/<name>
   tools/seed.py verify <name>               scratch worktree: demo passes without / fails with the
                                             patch, library builds, baseline suite passes
-  tools/seed.py run <name> [PID ...]        apply to /repo, run ./check PID quick, undo
+  tools/seed.py run <name> [PID ...]        apply in a scratch worktree, run ./check PID quick against it (VERIF_REPO), remove
   tools/seed.py runall [names...]           run every seeded change against its own property's check
 """
 import json
@@ -90,63 +90,62 @@ def verify(name):
         shutil.rmtree(wt, ignore_errors=True)
 
 
-def run(name, pids, tier="quick"):
+def run(name, pids, tier="quick", par=None):
+    """applies the change in a scratch worktree (never in /repo) and runs the checks against it"""
     d = os.path.join(SEEDED, name)
     meta = json.load(open(os.path.join(d, "meta.json")))
     if not pids:
         pids = [meta["property"]]
-    rc, out = sh("git -C /repo status --porcelain")
-    if out.strip():
-        print("refusing: /repo has uncommitted changes")
-        return None
-    rc, out = sh("git -C /repo apply %s" % os.path.join(d, "patch.diff"))
+    wt = "/var/tmp/seedrun-%s" % name
+    scratch = "/var/tmp/seedscr-%s" % name
+    sh("git -C /repo worktree remove --force %s" % wt)
+    shutil.rmtree(wt, ignore_errors=True)
+    shutil.rmtree(scratch, ignore_errors=True)
+    rc, out = sh("git -C /repo worktree add --detach %s HEAD -q" % wt)
     if rc != 0:
-        print("patch does not apply:", out)
+        print(out)
         return None
     results = {}
-    saved = {}
-    for pid in pids:
-        ef = os.path.join(ROOT, "evidence", pid + ".json")
-        saved[pid] = open(ef).read() if os.path.exists(ef) else None
     try:
+        rc, out = sh("git apply %s" % os.path.join(d, "patch.diff"), cwd=wt)
+        if rc != 0:
+            print(name, "patch does not apply:", out)
+            return None
+        env = "VERIF_REPO=%s VERIF_SCRATCH=%s " % (wt, scratch)
+        if par:
+            env += "VERIF_PAR=%d " % par
         for pid in pids:
-            before = set(os.listdir(os.path.join(ROOT, "replays", pid))) if os.path.isdir(os.path.join(ROOT, "replays", pid)) else set()
             t0 = time.time()
-            rc, out = sh("./check %s %s" % (pid, tier), cwd=ROOT, timeout=7200)
+            rc, out = sh(env + "./check %s %s" % (pid, tier), cwd=ROOT, timeout=7200)
             dt = time.time() - t0
             first = ""
-            for line in out.splitlines():
-                if line.startswith("VIOLATION"):
-                    first = line
-                    break
             msg = ""
             lines = out.splitlines()
             for i, line in enumerate(lines):
-                if line.startswith("VIOLATION") and i + 1 < len(lines):
-                    msg = lines[i + 1].strip()[:300]
+                if line.startswith("VIOLATION"):
+                    first = line
+                    if i + 1 < len(lines):
+                        msg = lines[i + 1].strip()[:300]
                     break
-            results[pid] = {"exit": rc, "wall_s": round(dt, 1), "violation": first, "message": msg}
-            print("  %s on %s: exit=%d %.1fs %s %s" % (pid, name, rc, dt, first, msg))
+            results[pid] = {"exit": rc, "wall_s": round(dt, 1), "violation": re.sub(r"replay=\S*/replays/", "replay=replays/", first), "message": msg,
+                            "at_repo_commit": sh("git -C /repo rev-parse --short HEAD")[1].strip()}
+            print("  %s on %s: exit=%d %.1fs %s %s" % (pid, name, rc, dt, first, msg[:160]), flush=True)
             if rc not in (0, 1):
                 print(out[-2000:])
-            # remove replays produced from the mutant
-            rd = os.path.join(ROOT, "replays", pid)
-            if os.path.isdir(rd):
-                for f in set(os.listdir(rd)) - before:
-                    os.remove(os.path.join(rd, f))
     finally:
-        sh("git -C /repo checkout -- .")
-        sh("git -C /repo clean -fdq")
-        for pid, content in saved.items():
-            ef = os.path.join(ROOT, "evidence", pid + ".json")
-            if content is None:
-                if os.path.exists(ef):
-                    os.remove(ef)
-            else:
-                open(ef, "w").write(content)
+        sh("git -C /repo worktree remove --force %s" % wt)
+        shutil.rmtree(wt, ignore_errors=True)
+        shutil.rmtree(scratch, ignore_errors=True)
+    meta = json.load(open(os.path.join(d, "meta.json")))
     meta.setdefault("checked", {}).update(results)
     json.dump(meta, open(os.path.join(d, "meta.json"), "w"), indent=1)
     return results
+
+
+def runall(names, jobs=4):
+    from concurrent.futures import ThreadPoolExecutor
+    with ThreadPoolExecutor(max_workers=jobs) as ex:
+        list(ex.map(lambda n: run(n, []), names))
 
 
 def main(a):
@@ -159,8 +158,7 @@ def main(a):
         run(a[2], a[3:])
     elif len(a) >= 2 and a[1] == "runall":
         names = a[2:] or sorted(os.listdir(SEEDED))
-        for n in names:
-            run(n, [])
+        runall(names, int(os.environ.get("SEED_JOBS", "4")))
     else:
         print(__doc__)
 
